@@ -438,6 +438,19 @@ def check(ctx):
                         r3.bad(V(r3.id, rg.id, "should_force-before-flag", "should_force() can be read before the CLI flag is applied", c.file, c.line))
     r3.require_floor(6, "force guards")
     rules.append(r2)
+    # "force" is an opt-in: when neither the file nor the command line sets it, should_force() answers false — a getter that defaults to true
+    # makes every run a forced run (the cache is never consulted, all files are rewritten on an unchanged project)
+    for g in [g_ for g_ in P.find("GenerateConfig::should_force") if g_.id.endswith("should_force")]:
+        dflt = []
+        for c in g.calls:
+            if c.bb in g.reach_blocks and c.name in ("unwrap_or", "map_or", "is_some_and", "unwrap_or_default", "unwrap_or_else") and "Option" in c.path:
+                k_ = op_const(c.args[1]) if len(c.args) > 1 else None
+                dflt.append((c, k_["bool"] if k_ and "bool" in k_ else (False if c.name in ("unwrap_or_default", "is_some_and") else None)))
+        for (c, v_) in dflt:
+            if v_ is True:
+                r3.bad(V(r3.id, g.id, "force-defaults-to-true", "should_force() answers true when `force` is unset: every run is a forced run and the cache is never consulted", c.file, c.line))
+            elif v_ is False:
+                r3.ok("should_force(): unset means false")
     rules.append(r3)
 
     # ---------------------------------------------------------------- D4: the saved record is comparable with the one the next run computes
@@ -526,6 +539,27 @@ def check(ctx):
                 r4.bad(V(r4.id, fid, "record-inputs:%s" % ",".join(bad), "the saved record and the cache check do not receive the same values (%s)" % ", ".join(bad), cn.file, cn.line))
             else:
                 r4.ok("%s: record built by %s from the values the check receives" % (short_path(fid), short_path(used)))
+    # the files whose presence the check demands before it answers "up to date" are files the tool writes, under the very names it writes them:
+    # a name nobody writes (a typo, `dependency_graph.dot`) is never there, so no record is ever accepted and every unchanged re-run regenerates
+    FILE_RX = re.compile(r"^[\w.-]+\.(ts|txt|dot|json|js|md)$")
+    from c08 import EXIST_CHECKS as _EX
+    vouch = [k for k in sorted(P.fns) if "::GenerationCache::" in k and "{promoted" not in k and "::{closure" not in k
+             and any(strip_generics(c.path) in _EX for kk in P.family(k) if "{promoted" not in kk for c in P.fns[kk].calls)]
+    written = set()
+    for k, g in P.fns.items():
+        if "::generation_cache::" in k or "{promoted" in k or not k.startswith(("tauri_typegen", "cargo_tauri_typegen")):
+            continue
+        written.update(x for x in g.const_strs() if FILE_RX.match(x))
+    n_v = 0
+    for k in vouch:
+        names = sorted({x for kk in P.family(k) if "{promoted" not in kk for x in P.fns[kk].const_strs() if FILE_RX.match(x)})
+        for nm in names:
+            n_v += 1
+            if nm in written:
+                r4.ok("%s demands %s, a name the generators write" % (short_path(k), nm))
+            else:
+                r4.bad(V(r4.id, k, "vouches-for-unwritten-file:%s" % nm, "%s refuses a record unless `%s` exists, but nothing writes a file of that name: "
+                         "the cache is never accepted" % (short_path(k), nm)))
     r4.require_floor(2, "check/record pairs")
     rules.append(r4)
 
